@@ -366,3 +366,26 @@ MANIFEST_TEXT["C07"] = {
              "algebra) is judged by exact arithmetic for the four clauses of the property."),
     "note": "Trusted: CPython, z3, pvm/exact.py.",
 }
+
+META["C10"] = {
+    "level": "exploration",
+    "rule": ("cases = contracts whose constraints each mention a variable, magnitudes in [1e-4, 1e6] (integers, "
+             "decimals with <=4 significant digits, arbitrary floats), coefficients +-1, exactly opposite term pairs "
+             "planted at random positions with equal / negated / unrelated / zero constants, variable names that "
+             "look like exponents, plus every contract of the repository corpus. Four round trips per case: machine "
+             "dictionary (== and field-wise identity), machine file (interface + meaning within tolerance), strings "
+             "read back without simplification (exact equivalence over Q with the original rounded to 4 significant "
+             "digits; every printed string must be accepted), human file (tolerance). Non-trivial = all cases; "
+             "distinct = case digests."),
+    "required": ["reach:machine-dict", "reach:machine-file", "reach:strings-exact", "reach:human-file",
+                 "reach:folded-strings", "kind:int", "kind:dec4", "kind:float", "corpus_cases"],
+    "assumptions": [NUM, TB, "temporary files live in a per-case mkdtemp directory that is removed afterwards"],
+    "soft_s": {"quick": 200, "thorough": 3000},
+}
+MANIFEST_TEXT["C10"] = {
+    "technique": RM + "the real printers / parsers / file reader and writer executed on generated contracts; exact z3 equivalence with the 4-significant-digit rounding of the original, field-wise identity for the machine form",
+    "text": ("Exploration: every contract is pushed through the four serialisation round trips of the real code and "
+             "the result compared exactly (machine dictionary; strings vs the rounded original over Q) or within the "
+             "tolerance (file reader, which re-simplifies)."),
+    "note": "Trusted: CPython, z3, pvm/exact.py, float('%.4g' % x) as the definition of the printed rounding.",
+}
